@@ -128,8 +128,12 @@ class CommandString(AbstractCommandComponent):
 class CommandParameters(AbstractCommandComponent):
     def output(self, context: CommandContext, out: io.TextIOBase):
         path = context.getAuxiliaryFile("params", ".json")
-        with path.open("wt") as fileout:
+        # Written atomically: a scheduler killed while writing must not leave a
+        # truncated file behind (it is read by the job commands and tools)
+        tmppath = path.with_suffix(".json.tmp")
+        with tmppath.open("wt") as fileout:
             context.config.__xpm__.outputjson(fileout, context)
+        tmppath.replace(path)
         out.write(context.relpath(path))
 
 
